@@ -1,14 +1,40 @@
-from jsim.envs.base import Adapter
+"""MultiCVRP: rules written from docs/environments/multi_cvrp.md and the docstrings of types.py.
+
+num_customers customers (indices 1..num_customers) with integer demands plus the depot (index 0, demand 0);
+num_vehicles vehicles, all starting at the depot with full capacity. Each vehicle's action is the index of
+the next node to visit, 0 = depot. `nodes.demands` holds the *remaining* demand (0 once collected),
+`vehicles.capacities` what a vehicle can still add before it must return to the depot (restored there).
+Per vehicle: the depot is always a possible action; a customer is possible iff it still has demand and the
+vehicle has enough capacity for it. The docs do not say what happens when an impossible customer is chosen
+or when two vehicles choose the same customer in one step (the implementation sends the vehicle(s) to the
+depot), so nothing is asserted about those cases beyond "the customer was not visited". The episode ends when
+all demand is collected and every vehicle is back at the depot, or at the step limit (2*num_customers steps),
+where both reward functions hand out a separately documented penalty.
+"""
+from __future__ import annotations
+
+from typing import Any, List, Optional
+
+import numpy as np
+
 from jsim.envs._mk import cfg
+from jsim.envs.base import Adapter
+
+DEPOT = 0
 
 
 class A(Adapter):
     name = "MultiCVRP"
     mask_mode = "per_agent"
     noop = 0
+    has_reaction = True
+    has_constraints = True
+    has_observer = True
 
     def configs(self):
-        return [cfg("c20v2", True, n=20, v=2, rew="dense"), cfg("c6v3sparse", True, n=6, v=3, rew="sparse"), cfg("c9v1", n=9, v=1, rew="dense")]
+        # the pinned generator only accepts num_customers in {6, 20, 50, 100, 150} and 2 or 3 vehicles for 6 / 20
+        return [cfg("c20v2", True, n=20, v=2, rew="dense"), cfg("c6v3sparse", True, n=6, v=3, rew="sparse"), cfg("c6v2", n=6, v=2, rew="dense"),
+                cfg("c20v3sparse", n=20, v=3, rew="sparse")]
 
     def build(self, c):
         from jumanji.environments import MultiCVRP
@@ -24,3 +50,165 @@ class A(Adapter):
     def inspec_action(self, env, rng):
         # the documented range is [0, num_customers]; the spec's extra value num_customers+1 is avoided
         return [int(rng.integers(0, env._num_customers + 1)) for _ in range(env._num_vehicles)]
+
+    # ---- rules ---------------------------------------------------------------------------------
+    def legal(self, s: Any, env: Any) -> np.ndarray:
+        dem = np.asarray(s.nodes.demands).astype(np.int64)  # remaining demand per node
+        cap = np.asarray(s.vehicles.capacities).astype(np.int64)  # remaining capacity per vehicle
+        out = (dem[None, :] > 0) & (dem[None, :] <= cap[:, None])
+        out[:, DEPOT] = True
+        return out
+
+    def describe(self, s, env, idx):
+        v, a = int(idx[0]), int(idx[1])
+        return (f"vehicle {v} (at node {int(np.asarray(s.vehicles.positions)[v])}, remaining capacity {int(np.asarray(s.vehicles.capacities)[v])}) -> node {a} "
+                f"(remaining demand {int(np.asarray(s.nodes.demands)[a])})")
+
+    # ---- C04 (b) -------------------------------------------------------------------------------
+    def reaction_invalid(self, ps, action, agent, s, ts, env, cfg):
+        # Only vehicle `agent` varies, the others go to the depot, so no two vehicles contend for a customer.
+        # "An action is the index of the next node to visit": the move was accepted iff the vehicle is now at
+        # that customer. The depot is always possible and looks the same as a rejected move: not judged.
+        a = int(action[agent])
+        if a == DEPOT:
+            return None
+        return int(np.asarray(s.vehicles.positions)[agent]) != a
+
+    # ---- C06 -----------------------------------------------------------------------------------
+    def constraints(self, hist, env, cfg):
+        n, V = cfg["n"], cfg["v"]
+        s0, s = hist[0].state, hist[-1].state
+        dem0 = np.asarray(s0.nodes.demands).astype(np.int64)
+        cap0 = np.asarray(s0.vehicles.capacities).astype(np.int64)  # full capacity of each vehicle
+        steps = [r for r in hist[1:] if not r.post_terminal]
+        # Where each vehicle really went comes from the recorded positions (the docs do not say which vehicle
+        # wins a contested customer); it is cross-checked with the actions: a vehicle is at the node it
+        # asked for or at the depot.
+        load = np.zeros(V, dtype=np.int64)
+        served_by = {}
+        for t, r in enumerate(steps, start=1):
+            pos = np.asarray(r.state.vehicles.positions).astype(np.int64)
+            act = [int(a) for a in r.action]
+            for v in range(V):
+                p = int(pos[v])
+                if p != act[v] and p != DEPOT:
+                    return ("vehicle_not_where_it_was_sent", f"step {t}: vehicle {v} chose node {act[v]} but is at node {p}")
+                if p == DEPOT:
+                    load[v] = 0
+                    continue
+                if p in served_by:
+                    return ("customer_served_twice", f"step {t}: vehicle {v} serves customer {p}, already served by vehicle {served_by[p][0]} at step {served_by[p][1]}")
+                served_by[p] = (v, t)
+                load[v] += int(dem0[p])
+                if load[v] > cap0[v]:
+                    return ("load_exceeds_capacity", f"step {t}: vehicle {v} carries {int(load[v])} since its last depot visit after collecting customer {p} "
+                            f"(demand {int(dem0[p])}); capacity {int(cap0[v])}")
+        # the state must describe exactly this partial solution
+        want_dem = dem0.copy()
+        for p in served_by:
+            want_dem[p] = 0
+        dem = np.asarray(s.nodes.demands).astype(np.int64)
+        if not np.array_equal(dem, want_dem):
+            i = int(np.flatnonzero(dem != want_dem)[0])
+            return ("remaining_demand_differs_from_history", f"node {i}: remaining demand {int(dem[i])} but initial demand {int(dem0[i])} and served={i in served_by}")
+        cap = np.asarray(s.vehicles.capacities).astype(np.int64)
+        if not np.array_equal(cap, cap0 - load) or (cap < 0).any():
+            return ("capacity_differs_from_history", f"remaining capacities {cap.tolist()} but full capacities {cap0.tolist()} minus loads {load.tolist()}")
+        if not np.array_equal(np.asarray(s.nodes.coordinates), np.asarray(s0.nodes.coordinates)):
+            return ("instance_changed", "node coordinates differ from those of the reset state")
+        if steps and int(hist[-1].ts.step_type) == 2 and len(steps) < self.horizon(env, cfg):
+            # ended before the step limit: the only other documented ending is completion
+            left = [int(i) for i in np.flatnonzero(want_dem > 0)]
+            if left:
+                return ("ended_with_unserved_customers", f"episode ended after {len(steps)} steps (< step limit) with customers {left} unserved")
+            pos = np.asarray(s.vehicles.positions)
+            if (pos != DEPOT).any():
+                return ("ended_away_from_depot", f"episode ended after {len(steps)} steps (< step limit) with vehicles at {pos.tolist()}")
+        return None
+
+    # ---- C08 -----------------------------------------------------------------------------------
+    def sparse_twin(self, c):
+        d = dict(c)
+        d["rew"] = "sparse" if c["rew"] == "dense" else "dense"
+        d["id"] = f"{c['id']}~{d['rew']}"
+        return d
+
+    def twin_comparable(self, hist, env, cfg):
+        # Dense and sparse are documented to describe the same quantity (minus path length, plus time penalties)
+        # only for episodes that end by completion; at the step limit both hand out a separately documented
+        # penalty. An episode that ends before the step limit ended by completion.
+        steps = [r for r in hist[1:] if not r.post_terminal]
+        if not steps or int(hist[-1].ts.step_type) != 2 or len(steps) >= self.horizon(env, cfg):
+            return False
+        s = hist[-1].state
+        return bool((np.asarray(s.nodes.demands) == 0).all() and (np.asarray(s.vehicles.positions) == DEPOT).all())
+
+    # ---- C11 -----------------------------------------------------------------------------------
+    def end_cause(self, ps, action, s, ts, env, cfg):
+        if bool((np.asarray(s.nodes.demands) == 0).all() and (np.asarray(s.vehicles.positions) == DEPOT).all()):
+            return "all_collected_and_vehicles_at_depot"
+        return None
+
+    # ---- C12 -----------------------------------------------------------------------------------
+    def observe(self, s, obs, env, cfg):
+        # The observation carries the instance (node coordinates, remaining demands, time windows, penalty
+        # coefficients), per vehicle its coordinates / local time / remaining capacity, and the action mask.
+        # (docs/environments/multi_cvrp.md lists per-vehicle batched copies and "other vehicles" fields that
+        # the Observation type does not have; only fields that exist are judged.)
+        pairs = [("nodes.coordinates", obs.nodes.coordinates, s.nodes.coordinates), ("nodes.demands", obs.nodes.demands, s.nodes.demands),
+                 ("windows.start", obs.windows.start, s.windows.start), ("windows.end", obs.windows.end, s.windows.end),
+                 ("coeffs.early", obs.coeffs.early, s.coeffs.early), ("coeffs.late", obs.coeffs.late, s.coeffs.late),
+                 ("vehicles.local_times", obs.vehicles.local_times, s.vehicles.local_times),
+                 ("vehicles.capacities", obs.vehicles.capacities, s.vehicles.capacities)]
+        for name, o, w in pairs:
+            o, w = np.asarray(o), np.asarray(w)
+            if o.shape != w.shape or not np.array_equal(o, w):
+                return (name.replace(".", "_"), f"obs.{name} {o.tolist()} vs state {w.tolist()}")
+        pos = np.asarray(s.vehicles.positions).astype(np.int64)
+        want_xy = np.asarray(s.nodes.coordinates)[pos]  # a vehicle is located at the node it is visiting
+        xy = np.asarray(obs.vehicles.coordinates)
+        if xy.shape != want_xy.shape or not np.allclose(xy, want_xy, rtol=1e-6, atol=1e-6):
+            return ("vehicles_coordinates", f"obs.vehicles.coordinates {xy.tolist()} vs coordinates of the nodes {pos.tolist()} the vehicles are at {want_xy.tolist()}")
+        m = np.asarray(obs.action_mask)
+        sm = np.asarray(s.action_mask)
+        if m.shape != (cfg["v"], cfg["n"] + 1) or not np.array_equal(m.astype(bool), sm.astype(bool)):
+            return ("action_mask", "obs.action_mask != state.action_mask")
+        can = self.legal(s, env)  # possible actions recomputed from the remaining demands / capacities of this state
+        if not np.array_equal(m.astype(bool), can):
+            i = np.argwhere(m.astype(bool) != can)[0]
+            return ("action_mask_stale", f"obs.action_mask[{int(i[0])},{int(i[1])}]={bool(m[tuple(i)])} but {self.describe(s, env, tuple(i))}")
+        return None
+
+    # ---- policies ------------------------------------------------------------------------------
+    def policy_complete(self, s, env, rng, legal):
+        """Every vehicle takes a different customer it can serve (largest demand first); depot otherwise."""
+        if legal is None:
+            return None
+        dem = np.asarray(s.nodes.demands)
+        taken, out = set(), []
+        for v in range(legal.shape[0]):
+            idx = [int(i) for i in np.flatnonzero(legal[v]) if i != DEPOT and int(i) not in taken]
+            if idx:
+                c = max(idx, key=lambda i: (int(dem[i]), -i))
+                taken.add(c)
+                out.append(c)
+            else:
+                out.append(DEPOT)
+        return out
+
+    def policy_collide(self, s, env, rng, legal):
+        """All vehicles that can, ask for the same customer (contention)."""
+        if legal is None:
+            return None
+        both = legal[:, 1:].sum(axis=0)
+        if both.max(initial=0) == 0:
+            return [DEPOT] * legal.shape[0]
+        cands = np.flatnonzero(both == both.max()) + 1
+        c = int(cands[int(rng.integers(0, len(cands)))])
+        return [c if legal[v, c] else DEPOT for v in range(legal.shape[0])]
+
+    def policy_survive(self, s, env, rng, legal):
+        """Stall: everybody stays at / returns to the depot (runs into the step limit)."""
+        if legal is None:
+            return None
+        return [DEPOT] * legal.shape[0]
